@@ -31,6 +31,10 @@ build() {
     ./build/bin/maporder -out "$ROOT/build/overlay" >/dev/null || exit 2
     (cd /repo && go build -tags verif -overlay "$ROOT/build/overlay/overlay.json" -o "$ROOT/build/bin/pigeon-verif-order" .) || exit 2
     go build -o build/bin/vcheck ./cmd/vcheck || exit 2
+    # free-running race-detector pass for C18 (same scenario bodies, real sync.Pool)
+    if [ "$ID" = "C18" ] || [ "$ID" = "setup" ]; then
+      go build -race -o build/bin/vcheck-race ./cmd/vcheck || exit 2
+    fi
   ) 9>build/.lock
 }
 
